@@ -444,7 +444,10 @@ HErrOK(c, H) ==
          ended   == \E j \in Rets(H) : j < i /\ ~H[j].ok
          closeB  == \E j \in 1 .. i : H[j].op = "close"
          cancelB == \E j \in 1 .. i : H[j].op \in {"cancel", "cancel.b"}
-     IN IF natural THEN cls = ErrCls(FinalErrOf(c))                              \* the recorded error (or success) wins
+     IN IF natural
+        THEN IF FinalErrOf(c) = "eof"                            \* ended cleanly on a block boundary: success (a later stop may be reported)
+             THEN cls = "nil" \/ (cls = "closed" /\ closeB) \/ (cls = "canceled" /\ cancelB)
+             ELSE cls \notin {"nil", "closed", "canceled"}        \* the recorded error wins, also over a later stop
         ELSE IF i > StopEnd(H)
              THEN \/ cls = "closed" /\ closeB
                   \/ cls = "canceled" /\ cancelB
